@@ -859,8 +859,12 @@ class Ctx:
     def check(self, cond: bool, rule, fi, role, ok_detail="", fail_detail="", node=None, construct=None):
         if cond:
             self.ok(rule, fi, role, ok_detail, node, construct)
+        elif not fail_detail:
+            # a rule instance that cannot say what is wrong is a shape assumption of the checker, not a verdict on the
+            # code: the construct is in a form outside the tables -> undecided
+            self.undecided(construct or (fi.short if fi else "?"), f"{rule} [{role}]: the construct is written in a form outside the tables ({self._where(fi, node)})")
         else:
-            self.fail(rule, fi, role, fail_detail or ok_detail, node, construct)
+            self.fail(rule, fi, role, fail_detail, node, construct)
         return cond
 
     def note(self, s: str):
